@@ -4,3 +4,5 @@ pub mod c07;
 pub mod c08;
 pub mod c09;
 pub mod c05;
+pub mod c10;
+pub mod c18;
